@@ -325,7 +325,7 @@ class Rig:
         import types
 
         impl = self.impl
-        impl.cm.time = types.SimpleNamespace(time=lambda: impl.now_ms / 1000)
+        impl.cm.time = C.clock_patch(impl.cm, lambda: impl.now_ms / 1000)
         impl.codec_mod.datetime = impl.fake_datetime
 
     def load(self, start):
